@@ -18,8 +18,66 @@ def main(tier):
     for c in cfgs:
         sc.explore(chk, c, variants=("as_is", "onebyte", "maxread", "intr", "mmap"), timeout=3000)
     multiline_part(chk, tier)
+    maxcount_part(chk, tier)
     chk.exhaustive = True
     return chk.finish()
+
+
+def maxcount_part(chk, tier):
+    """`rg -m N` with context: the first N selected lines plus the trailing context they are entitled to (MaxCount.tla)."""
+    import json
+    import rgrun
+    res = vlib.tlc("search/MaxCount", "C16_max", workers=8, timeout=1800)
+    if res.rc != 0:
+        raise vlib.ToolError("TLC failed on C16_max:\n" + res.tail(40))
+    chk.add_tlc(res)
+    recs = res.emits()
+    scr = rgrun.Scratch("c16max")
+    try:
+        files = {}
+        jobs = []
+        for r in recs:
+            b = bytes(r["scn"]["inp"])
+            if b not in files:
+                files[b] = scr.write("f%d" % len(files), b)
+            s = r["scn"]
+            args = ["--no-config", "--color", "never", "-j1", "-n", "--no-heading", "-m", str(s["n"])]
+            if s["A"]:
+                args += ["-A", str(s["A"])]
+            if s["B"]:
+                args += ["-B", str(s["B"])]
+            if s["inv"]:
+                args += ["-v"]
+            for strat in (["--mmap"], ["--no-mmap"]):
+                jobs.append({"args": args + strat + ["-e", "m", files[b]], "_r": r})
+        outs = rgrun.run_many(jobs)
+        chk.evaluations += len(jobs)
+        for j, (rc, so, se) in zip(jobs, outs):
+            r = j["_r"]
+            got = []
+            for line in so.split(b"\n"):
+                if line == b"--":
+                    got.append([0, "brk"])
+                    continue
+                k = 0
+                while k < len(line) and 48 <= line[k] <= 57:
+                    k += 1
+                if k and line[k:k + 1] in (b":", b"-"):
+                    got.append([int(line[:k]), "match" if line[k:k + 1] == b":" else "ctx"])
+            # beyond the N-th selected line everything printed is trailing context; its marker (':' or '-') is not
+            # part of the statement
+            if r["nth"]:
+                got = [[i, "ctx" if i > r["nth"] else k] for i, k in got]
+            if got != r["exp"]:
+                s = r["scn"]
+                chk.violation({"variant": "maxcount", "plan": "maxcount", "inv": s["inv"], "ctx": bool(s["A"] or s["B"]), "n": s["n"]},
+                              {"why": {"got": got, "expected": r["exp"]}, "args": j["args"][:-1], "input": s["inp"], "maxcount": True})
+            else:
+                chk.validated += 1
+                if len(r["exp"]) >= 3 and r["scn"]["A"]:
+                    chk.nontrivial_case(json.dumps(r["scn"], sort_keys=True))
+    finally:
+        scr.close()
 
 
 def multiline_part(chk, tier):
